@@ -204,7 +204,15 @@ func main() {
 	case "term":
 		syscall.Kill(os.Getpid(), syscall.SIGTERM)
 	case "pipe":
-		syscall.Kill(os.Getpid(), syscall.SIGPIPE)
+		dieBySIGPIPE()
 	}
 	os.Exit(rec.Exit)
+}
+
+// dieBySIGPIPE: the Go runtime ignores a SIGPIPE that was not raised by a write to fd 1 or 2, so the process
+// image is replaced by a shell (same pid, default signal dispositions) that kills itself with the signal.
+func dieBySIGPIPE() {
+	os.Stdout.Sync()
+	syscall.Exec("/bin/sh", []string{"sh", "-c", "kill -PIPE $$"}, os.Environ())
+	os.Exit(128 + 13)
 }
